@@ -32,6 +32,7 @@ type genState struct {
 	labels []string // instruction labels available for reference
 	equs   []string
 	ctrs   []string // counters in scope
+	countEqus []string // EQUs already written out (usable in FOR counts)
 }
 
 // small literal biased to interesting values
@@ -200,7 +201,11 @@ func GenProg(r Rand, o GenOpts) *Prog {
 	}
 	if o.UseEqus {
 		perm := r.Intn(len(equPool))
-		for k := 0; k < 1+r.Intn(3); k++ {
+		ne := 1 + r.Intn(3)
+		if o.UseFor {
+			ne = 1 + r.Intn(4)
+		}
+		for k := 0; k < ne; k++ {
 			g.equs = append(g.equs, equPool[(perm+k*3)%len(equPool)])
 		}
 		g.equs = dedupe(g.equs)
@@ -221,11 +226,30 @@ func GenProg(r Rand, o GenOpts) *Prog {
 			p.Items = append(p.Items, ins)
 		}
 	} else {
-		g.genForProgram(p, allLabels, n)
+		// EQUs of a FOR program are small pure numbers (they end up in counts).  They are written out
+		// between the top-level items, later-indexed ones first, so that whenever one is visible to a
+		// count all the EQUs it refers to are visible as well.
+		var pending []Item
+		for k := len(g.equs) - 1; k >= 0; k-- {
+			var e Expr = Lit{V: r.Intn(6)}
+			if r.Intn(3) == 0 {
+				e = Bin{"+-*"[r.Intn(3)], Lit{V: 1 + r.Intn(3)}, Lit{V: r.Intn(3)}}
+			}
+			if k+1 < len(g.equs) && r.Intn(3) == 0 {
+				e = Bin{'+', Ref{g.equs[k+1]}, Lit{V: r.Intn(2)}}
+			}
+			if k+2 < len(g.equs) && r.Intn(3) == 0 {
+				// the same EQU twice, then another one (substitution order must not matter)
+				a, b := Ref{g.equs[k+1]}, Ref{g.equs[k+2]}
+				e = Bin{'%', Par{Bin{'+', Bin{"+*"[r.Intn(2)], a, a}, b}}, Lit{V: 5}}
+			}
+			pending = append(pending, &Equ{Name: g.equs[k], E: e})
+		}
+		g.genForProgram(p, allLabels, n, pending)
 	}
 
 	// EQU definitions: chains allowed (an EQU may use EQUs defined later in the list -> no cycles)
-	if o.UseEqus {
+	if o.UseEqus && !o.UseFor {
 		var defs []Item
 		for k, name := range g.equs {
 			sub := &genState{r: r, o: o, labels: g.labels}
@@ -326,7 +350,7 @@ func dedupe(xs []string) []string {
 // labels referenced from inside (and, with OutsideRef, from outside) the block.
 // Labels are only put on top-level instructions and in front of blocks (never
 // inside a body: they would be defined once per iteration).
-func (g *genState) genForProgram(p *Prog, allLabels []string, n int) {
+func (g *genState) genForProgram(p *Prog, allLabels []string, n int, pending []Item) {
 	r := g.r
 	budget := g.o.MaxForExp
 	if budget < 1 {
@@ -360,11 +384,11 @@ func (g *genState) genForProgram(p *Prog, allLabels []string, n int) {
 		if r.Intn(10) == 0 {
 			cnt = 5 + r.Intn(2)
 		}
-		if len(g.equs) > 0 && r.Intn(3) == 0 {
-			// an expression over EQUs whose value is not known here; Unroll evaluates it
-			f.Count = Bin{'%', Par{Bin{'+', Ref{pick(r, g.equs)}, Lit{V: cnt}}}, Lit{V: 4}}
+		if len(g.countEqus) > 0 && r.Intn(3) == 0 {
+			// an expression over EQUs written before this block; Unroll evaluates it
+			f.Count = Bin{'%', Par{Bin{'+', Ref{pick(r, g.countEqus)}, Lit{V: cnt}}}, Lit{V: 4}}
 			if r.Intn(2) == 0 {
-				f.Count = Ref{pick(r, g.equs)}
+				f.Count = Ref{pick(r, g.countEqus)}
 			}
 		} else {
 			f.Count = Lit{V: cnt}
@@ -385,7 +409,22 @@ func (g *genState) genForProgram(p *Prog, allLabels []string, n int) {
 		g.ctrs = saved
 		return f
 	}
+	emitDef := func() {
+		if len(pending) > 0 {
+			d := pending[0].(*Equ)
+			pending = pending[1:]
+			p.Items = append(p.Items, d)
+			g.countEqus = append(g.countEqus, d.Name)
+		}
+	}
+	// most definitions come first, some between the items, the rest at the end (forward use in operands)
+	for len(pending) > 0 && r.Intn(3) != 0 {
+		emitDef()
+	}
 	for k := 0; k < n; k++ {
+		if r.Intn(3) == 0 {
+			emitDef()
+		}
 		if used < budget && r.Intn(3) == 0 {
 			used++
 			f := genBlock(1, 1)
@@ -423,6 +462,9 @@ func (g *genState) genForProgram(p *Prog, allLabels []string, n int) {
 			}
 			p.Items = append(p.Items, ins)
 		}
+	}
+	for len(pending) > 0 {
+		emitDef()
 	}
 	g.labels = placed
 }
